@@ -18,7 +18,7 @@ pub fn run(args: &Args, r: &mut Report) {
         .into();
     r.require(&["c09-apps-policy-next", "c09-apps-policy-allowed", "c09-wire-cohort-and-ping", "c09-committed-at-quiescence"]);
     r.assume("duplicate app ids inside one response are not generated (don't-care)");
-    let n = args.budget(4_000, 80_000);
+    let n = args.budget(20_000, 200_000);
     for i in 0..n {
         if args.skip(i) {
             continue;
